@@ -31,7 +31,7 @@ fn main() {
         cases.push(("replay".into(), read_replay(p)));
     } else {
         if let Some(dir) = &args.corpus { cases.extend(read_corpus(dir)); }
-        let n = args.budget(700, 20000);
+        let n = args.budget(2500, 40000);
         for i in 0..n {
             let mut r = Rng::for_case(args.seed, i);
             let g = GenCfg { universe: *r.pick(&[2, 3, 5, 9]), n_ops: 10 + r.usize(19), malformed: 6 };
